@@ -36,7 +36,8 @@ pub fn get_num_cells(resolution: i32) -> u64 {
     }
 
     // For lower resolutions, exact calculation works fine
-    60 * (4_u64.pow((resolution - 1) as u32))
+    // (saturating: resolutions beyond the supported range must not overflow)
+    60_u64.saturating_mul(4_u64.saturating_pow((resolution - 1) as u32))
 }
 
 /// Returns the number of children between two resolutions.
